@@ -151,4 +151,57 @@ theorem matches_whole (cs h : Chars) : Matches (anchoredAst true true cs) h ↔ 
   · rintro rfl
     exact ⟨0, h.length, Nat.zero_le _, (M_anchored h true true h 0 _).2 ⟨fun _ => rfl, by simp, by simp, fun _ => rfl⟩⟩
 
+/-! ### the repetition operators in their familiar form -/
+
+theorem M_opt (h : Chars) (a : Ast) (i j : Nat) : M h (.rep 0 (some 1) a) i j ↔ j = i ∨ M h a i j := by
+  simp only [M]
+  constructor
+  · rintro ⟨n, _, h2, hI⟩
+    have := h2 1 rfl
+    match n, hI with
+    | 0, hI => exact Or.inl hI
+    | 1, hI => exact Or.inr (Iter_one.1 hI)
+    | n + 2, _ => omega
+  · rintro (rfl | hm)
+    · exact ⟨0, Nat.le_refl _, fun _ _ => Nat.zero_le _, rfl⟩
+    · exact ⟨1, Nat.zero_le _, fun m hm' => by cases hm'; exact Nat.le_refl _, Iter_one.2 hm⟩
+
+theorem M_star (h : Chars) (a : Ast) (i j : Nat) :
+    M h (.rep 0 none a) i j ↔ j = i ∨ ∃ k, M h a i k ∧ M h (.rep 0 none a) k j := by
+  simp only [M]
+  constructor
+  · rintro ⟨n, _, _, hI⟩
+    cases n with
+    | zero => exact Or.inl hI
+    | succ n =>
+      obtain ⟨k, hr, hI'⟩ := hI
+      exact Or.inr ⟨k, hr, n, Nat.zero_le _, (fun _ hm => nomatch hm), hI'⟩
+  · rintro (rfl | ⟨k, hr, n, _, _, hI⟩)
+    · exact ⟨0, Nat.le_refl _, (fun _ hm => nomatch hm), rfl⟩
+    · exact ⟨n + 1, Nat.zero_le _, (fun _ hm => nomatch hm), k, hr, hI⟩
+
+theorem M_plus (h : Chars) (a : Ast) (i j : Nat) :
+    M h (.rep 1 none a) i j ↔ ∃ k, M h a i k ∧ M h (.rep 0 none a) k j := by
+  simp only [M]
+  constructor
+  · rintro ⟨n, h1, _, hI⟩
+    cases n with
+    | zero => omega
+    | succ n =>
+      obtain ⟨k, hr, hI'⟩ := hI
+      exact ⟨k, hr, n, Nat.zero_le _, (fun _ hm => nomatch hm), hI'⟩
+  · rintro ⟨k, hr, n, _, _, hI⟩
+    exact ⟨n + 1, by omega, (fun _ hm => nomatch hm), k, hr, hI⟩
+
+theorem M_exact (h : Chars) (a : Ast) (n i j : Nat) :
+    M h (.rep n (some n) a) i j ↔ Iter (M h a) n i j := by
+  simp only [M]
+  constructor
+  · rintro ⟨m, h1, h2, hI⟩
+    have := h2 n rfl
+    have : m = n := by omega
+    subst this; exact hI
+  · intro hI
+    exact ⟨n, Nat.le_refl _, fun m hm => by cases hm; exact Nat.le_refl _, hI⟩
+
 end Grcov.Regex
